@@ -203,7 +203,11 @@ func init() {
 	})
 }
 
-func c03Families(tier string) []engine.Family {
+func c03Families(tier string) []engine.Family { return c03FamiliesWith(tier, c03Check) }
+
+// c03FamiliesWith enumerates the byte-string space of C03 and hands every input to check (C03's own oracle, or C09's
+// "whatever is accepted must come with a well-formed event stream").
+func c03FamiliesWith(tier string, check func(x *engine.Exec, cd *Codec, in []byte, fam string, combos [][3]int)) []engine.Family {
 	L := tierPick(tier, 4, 5)
 	args := []uint64{0, 1, 1 << 31, 1 << 32, 1 << 62, 1<<63 - 1, 1 << 63, 1<<64 - 1}
 	tails := [][]byte{{}, {0x61}, {0x61, 0x01}}
@@ -221,7 +225,7 @@ func c03Families(tier string) []engine.Family {
 			}
 			x.Case(cd.Name+string(in), len(in) >= 2)
 			x.Sample(func() interface{} { return map[string]interface{}{"codec": cd.Name, "hex": hexs(in)} })
-			c03Check(x, cd, in, "all-bytes", c03Combos(len(in), 1+x.Choose(2)*2))
+			check(x, cd, in, "all-bytes", c03Combos(len(in), 1+x.Choose(2)*2))
 		}},
 		{Name: "reduced-alphabet", Arity: []int{3, 52, 52}, Body: func(x *engine.Exec) {
 			cd := codecs[x.Choose(3)]
@@ -241,7 +245,7 @@ func c03Families(tier string) []engine.Family {
 			}
 			x.Case(cd.Name+string(in), true)
 			x.Sample(func() interface{} { return map[string]interface{}{"codec": cd.Name, "hex": hexs(in)} })
-			c03Check(x, cd, in, "reduced", c03LightCombos(len(in)))
+			check(x, cd, in, "reduced", c03LightCombos(len(in)))
 		}},
 		{Name: "argument-sweep", Body: func(x *engine.Exec) {
 			fmtSel := x.Choose(2) // 0 cbor, 1 ubjson
@@ -267,7 +271,7 @@ func c03Families(tier string) []engine.Family {
 			}
 			x.Case(cd.Name+string(in), true)
 			x.Sample(func() interface{} { return map[string]interface{}{"codec": cd.Name, "hex": hexs(in)} })
-			c03Check(x, cd, in, "argument-sweep", c03Combos(len(in), 3))
+			check(x, cd, in, "argument-sweep", c03Combos(len(in), 3))
 		}},
 	}
 	fams = append(fams, engine.Family{Name: "json-broken-escapes", Body: func(x *engine.Exec) {
@@ -292,7 +296,7 @@ func c03Families(tier string) []engine.Family {
 		in := []byte(doc)
 		x.Case("json"+doc, true)
 		x.Sample(func() interface{} { return map[string]interface{}{"codec": "json", "text": doc} })
-		c03Check(x, codecJSON, in, "broken-escape", c03Combos(len(in), 3))
+		check(x, codecJSON, in, "broken-escape", c03Combos(len(in), 3))
 	}})
 	fams = append(fams, engine.Family{Name: "scaling", Arity: []int{3}, Body: func(x *engine.Exec) {
 		// "time proportional to the input length for all chunkings": one unit repeated 1 024 and 4 096 times (runs of
@@ -315,7 +319,7 @@ func c03Families(tier string) []engine.Family {
 			return map[string]interface{}{"codec": cd.Name, "prefix": u[0], "repeated_unit": u[1], "suffix": u[2], "repetitions": n, "bytes": len(in)}
 		})
 		L := len(in)
-		c03Check(x, cd, in, "scaling", [][3]int{{0, 0, 0}, {2, L, 0}, {3, L, 0}, {4, 0, 0}, {5, L, 16}, {5, 0, 64}})
+		check(x, cd, in, "scaling", [][3]int{{0, 0, 0}, {2, L, 0}, {3, L, 0}, {4, 0, 0}, {5, L, 16}, {5, 0, 64}})
 	}}, engine.Family{Name: "scaling-strings", Arity: []int{3}, Body: func(x *engine.Exec) {
 		cd := codecs[x.Choose(3)]
 		n := []int{1024, 4096, 16384}[x.Choose(3)]
@@ -349,7 +353,7 @@ func c03Families(tier string) []engine.Family {
 			return map[string]interface{}{"codec": cd.Name, "long_item_kind": kind, "length": n}
 		})
 		L := len(in)
-		c03Check(x, cd, in, "scaling", [][3]int{{0, 0, 0}, {2, L, 0}, {3, L, 0}, {4, 0, 0}, {5, L, 16}, {5, 0, 64}})
+		check(x, cd, in, "scaling", [][3]int{{0, 0, 0}, {2, L, 0}, {3, L, 0}, {4, 0, 0}, {5, L, 16}, {5, 0, 64}})
 	}})
 	ed := allDocFamilies(edSc, func(x *engine.Exec, c *DocCase) {
 		doc := c.Doc
@@ -372,7 +376,7 @@ func c03Families(tier string) []engine.Family {
 		x.Sample(func() interface{} {
 			return map[string]interface{}{"codec": c.Codec.Name, "hex": hexs(in), "derived_from": hexs(doc)}
 		})
-		c03Check(x, c.Codec, in, "edit", c03LightCombos(len(in)))
+		check(x, c.Codec, in, "edit", c03LightCombos(len(in)))
 	})
 	var keep []engine.Family
 	for _, f := range ed {
